@@ -30,11 +30,18 @@
 //       after the commit.  `mig ... mk=1` adds multi-key commands to the random traffic.
 //       -> "mkey ok cases=<n> replies=<r;..> bad_reads=<n> trace="   (bad_reads: read-backs that contradict the command, informational)
 //
+//   race kind=getall|delall conns= active=<0|1> out=
+//       directed witness of the known finding `multikey-eval-active-redirect-precheck-race`: the handshake is held at PRECHECK (both
+//       sides in PreCheck); a 2-key EVAL goes through P2: ensure_keys_imported's EXISTS of the LAST key is redirected to P1 (with
+//       active=1: UMFORWARD, answered by the source Redis) and its reply is held on the way back; the handshake is released and runs to
+//       Scanning (scanner held at its first SCAN); the reply is released: the EVAL itself now meets the importing task in PreSwitch.
+//       -> "race ok kind= active= gates=<precheck><reply><scan> eval_reply= read_last= final_last= trace="
+//
 // Topology (nothing real is opened): P1 127.0.1.1:7001 / R1 127.0.1.1:6001 (source), P2 127.0.2.1:7002 / R2 127.0.2.1:6002
 // (destination); see net.rs for the fake network, store.rs for the storing Redis stand-in, scen.rs for the scenarios and
 // the trace format (JSON lines: meta, epoch, inv, hop, rep, redis, p2p, phase, commit, hold, final; every event has a
 // global `seq` and a wall-clock `us` that is informational only).
-use crate::scen::{run_collide, run_mig, run_mkey, run_multi, run_witness, Params};
+use crate::scen::{run_collide, run_mig, run_mkey, run_multi, run_race, run_witness, Params};
 use crate::util::bulk_cmd;
 use undermoon::protocol::RespPacket;
 use undermoon::proxy::command::{requires_blocking_migration, Command};
@@ -67,6 +74,7 @@ pub fn run_case(_rt: &tokio::runtime::Runtime, line: &str) -> String {
         "collide" => run_collide(&Params::parse(&toks[1..])),
         "multi" => run_multi(&Params::parse(&toks[1..])),
         "mkey" => run_mkey(&Params::parse(&toks[1..])),
+        "race" => run_race(&Params::parse(&toks[1..])),
         k => format!("unknown-kind {}", k),
     }
 }
